@@ -672,3 +672,9 @@ def numeral_index(r):
 
 def numeral_semis(i):
     return (0 if i == 0 else 2 if i == 1 else 4 if i == 2 else 5 if i == 3 else 7 if i == 4 else 9 if i == 5 else 11)
+
+
+@primitive
+def all_valid_names(t):
+    """every Note of a string / course has a valid name"""
+    return all(is_name(n.name) for n in (t if isinstance(t, list) else [t]))
